@@ -14,8 +14,8 @@ def run(ck):
     n = min(core.NPROC, len(sp))
     for r in core.pmap("vf.props.applyrun:work", [{"sources": sp[i::n], "prop": "C16"} for i in range(n)], timeout=3400):
         ck.merge(r)
-    ck.need("confine_on", 200)
-    ck.need("results_executed", 200)
+    ck.need("confine_on", 120)
+    ck.need("results_executed", 120)
     ck.need("cli_applies", 5)
     for f in ("imports:plain-import", "imports:from-import", "imports:aliased-from-import", "imports:aliased-module", "imports:function-local-import",
               "imports:mixed", "existing-type-checking-block", "future-import", "docstring"):
